@@ -879,8 +879,13 @@ func (m MemoryFeatureSource) Read(options ReadOptions, emit Emit, ctx context.Co
 	for i := 0; i < cores; i++ {
 		go feed(i)
 	}
+feeding:
 	for _, f := range m {
-		c <- f
+		select {
+		case c <- f:
+		case <-ctx.Done():
+			break feeding
+		}
 	}
 	close(c)
 	wg.Wait()
